@@ -161,6 +161,11 @@ def copyA (A : List Int) (s : Win) (start length : Int) : Option (List Int × AR
   | some (.fresh xs) => some (A, .fresh xs false)
   | some _ => some (A, .fresh [] true)
 
+/-- `Values(fn, ss...)` with every `ss[k]` a window of the arena: `ret := make([]V, n)` is memory of
+its own (non-nil also for `n = 0`), the arena is only read. -/
+def valuesA (fn : Int → Int) (A : List Int) (ss : List Win) : Option (List Int × ARes) :=
+  (values fn (ss.map fun w => w.read A)).map fun r => (A, .fresh r false)
+
 /-- `SubSlice`: a window of the source -/
 def subSliceA (A : List Int) (s : Win) (start «end» : Int) : Option (List Int × ARes) :=
   match subSlice s.len start «end» with
@@ -269,6 +274,10 @@ def arenaStep (A : List Int) (ts : List String) : Option (Option (List Int × St
   | [["filterip", s1], acc] =>
     match parseWinIn A s1, ints? acc with
     | some s1, some acc => some (showCall (filterInPlaceA (fun v => acc.contains v) A s1))
+    | _, _ => none
+  | [("values" :: k :: ws)] =>
+    match k.toInt?, ws.mapM (parseWinIn A) with
+    | some k, some ss => some (showCall (valuesA (fun v => v * k) A ss))
     | _, _ => none
   | [["copy", a, b, s]] =>
     match a.toInt?, b.toInt?, parseWinIn A s with
